@@ -33,8 +33,8 @@ Inductive cpend :=
 Inductive wdpend :=
 | WDStore (a id : Z) (exp : option Z)         (* store entry removed, weight still charged *)
 | WDWeight (a id : Z) (exp : option Z)        (* weight released, expiry index entry still there *)
-| WPAdmitted (a k v id : Z) (ttl : option Z) (obs : list Z).
-                                              (* inside a put: admitted and charged, the entry not yet inserted *)
+| WPCharged (a k v id : Z) (ttl : option Z) (obs : list Z).
+                                              (* inside a put: let in and charged, the entry not yet inserted *)
 
 Record mstate := { win : wstate; cps : list (Z * cpend); wdel : option wdpend }.
 
@@ -188,7 +188,7 @@ Definition mput1 (cfg : config) (ms : mstate) (orc : worker_oracle) (k v id h w 
   if amem k (store s0) then (with_mbase ms (set_ack a (Rejected KeyAlreadyExists) s0), [5; 5]) else
   match admission cfg orc k id h w s0 with
   | (AdStatus Accepted, s1, vs) =>
-      ({| win := with_base (win ms) s1; cps := cps ms; wdel := Some (WPAdmitted a k v id ttl (5 :: 1 :: map sk_id vs)) |}, [9])
+      ({| win := with_base (win ms) s1; cps := cps ms; wdel := Some (WPCharged a k v id ttl (5 :: 1 :: map sk_id vs)) |}, [9])
   | (AdStatus x, s1, vs) => (with_mbase ms (set_ack a x (upd_st add_keys_rejected 1 s1)), 5 :: status_code x :: map sk_id vs)
   | (AdPanic site, s1, _) => (with_mbase ms (set_worker s1 Dead), [4; site])
   | (AdInadmissible why, _, _) => (ms, [7; why])
@@ -227,7 +227,7 @@ Definition mworker2 (cfg : config) (ms : mstate) : mstate * list Z :=
   | Some (WDWeight a id exp) =>
       let s3 := match exp with Some x => set_ticker s (ticker_delete cfg id x (ticker s)) | None => s end in
       ({| win := with_base (win ms) (set_ack a Accepted s3); cps := cps ms; wdel := None |}, [5; 1])
-  | Some (WPAdmitted a k v id ttl obs) =>
+  | Some (WPCharged a k v id ttl obs) =>
       match ttl with
       | None => ({| win := with_base (win ms) (set_ack a Accepted (store_insert k v id None s)); cps := cps ms; wdel := None |}, obs)
       | Some t =>
